@@ -46,6 +46,7 @@ func CreateCompiler(funcName string, parent Compiler, checker types.Checker, loc
 	case nil:
 		cmp := NewBytecodeCompiler(funcName, topLevelBytecodeCompilerMode, loc, checker, newBytecodeGlobalData())
 		cmp.additionalAbortChecks = additionalAbortChecks
+		cmp.globalData.additionalAbortChecks = additionalAbortChecks
 		cmp.Errors = errors
 		cmp.SetParent(parent)
 		return cmp
